@@ -6,6 +6,7 @@ import (
 	"fmt"
 	"os"
 	"os/signal"
+	"runtime"
 	"strings"
 	"sync"
 	"sync/atomic"
@@ -128,14 +129,21 @@ type world struct {
 	closes       map[string]int // "scheme/gN" -> Close calls on that value
 	watchers     map[int]confmap.WatcherFunc
 	hosts        map[string]component.Host // "g/id" -> host handed to Start
-	syncFatal    atomic.Int32              // FatalError reports made by components from inside their own Start/Shutdown
-	paused       chan *pausePoint
-	abandoned    chan struct{} // closed when the driver gave up (watchdog): paused components return
+	// the providers' logging goroutines
+	provLoggers [2]*zap.Logger
+	logStart    sync.Once
+	logStopOnce sync.Once
+	logStop     chan struct{}
+	logWG       sync.WaitGroup
+
+	syncFatal atomic.Int32 // FatalError reports made by components from inside their own Start/Shutdown
+	paused    chan *pausePoint
+	abandoned chan struct{} // closed when the driver gave up (watchdog): paused components return
 }
 
 func newWorld(s *Script) *world {
 	return &world{s: s, watchers: map[int]confmap.WatcherFunc{}, hosts: map[string]component.Host{},
-		provShutdown: map[string]int{}, retrieved: map[string]int{}, closes: map[string]int{},
+		provShutdown: map[string]int{}, retrieved: map[string]int{}, closes: map[string]int{}, logStop: make(chan struct{}),
 		paused: make(chan *pausePoint), abandoned: make(chan struct{})}
 }
 
@@ -420,6 +428,7 @@ func (p *provider) Retrieve(_ context.Context, _ string, watcher confmap.Watcher
 		w.add(n, auxScheme, "retrieve-aux", false)
 		return confmap.NewRetrieved(map[string]any{}, w.closer(auxScheme, n))
 	}
+	w.startLoggers()
 	w.mu.Lock()
 	n := w.retrieves
 	w.retrieves++
@@ -450,6 +459,9 @@ func (p *provider) Shutdown(context.Context) error {
 	n := w.retrieves - 1
 	w.mu.Unlock()
 	w.add(n, p.scheme, "prov-shutdown", false)
+	if p.scheme == mainScheme {
+		w.stopLoggers()
+	}
 	return nil
 }
 
@@ -609,9 +621,58 @@ func (w *world) factories() otelcol.Factories {
 	}
 }
 
-func nopLogging() []zap.Option {
-	return []zap.Option{zap.WrapCore(func(zapcore.Core) zapcore.Core { return zapcore.NewNopCore() })}
+// loggingOptions: everything the collector and its services log is discarded - except that the FIRST logger built
+// with these options is left alone.  That one is the logger NewCollector builds for the configuration providers
+// and converters (confmap.ProviderSettings.Logger), whose core the collector swaps on every (re)load; the
+// providers' background goroutines log through it, so it has to be the real thing.  Whatever it emits ends in the
+// service's logger, which is built afterwards with the same options, hence discarded.
+func loggingOptions() []zap.Option {
+	var n atomic.Int32
+	return []zap.Option{zap.WrapCore(func(c zapcore.Core) zapcore.Core {
+		if n.Add(1) == 1 {
+			return c
+		}
+		return zapcore.NewNopCore()
+	})}
 }
+
+// startLoggers: the providers' background goroutines (Script.Loggers of them, alternating between the two
+// providers' loggers) log continuously at several levels from the first Retrieve until the main provider's
+// Shutdown - or the end of the case.
+func (w *world) startLoggers() {
+	w.logStart.Do(func() {
+		for i := 0; i < w.s.Loggers; i++ {
+			lg := w.provLoggers[i%len(w.provLoggers)]
+			if lg == nil {
+				continue
+			}
+			w.logWG.Add(1)
+			go func(i int) {
+				defer w.logWG.Done()
+				for n := 0; ; n++ {
+					select {
+					case <-w.logStop:
+						return
+					default:
+					}
+					switch (n + i) % 4 {
+					case 0:
+						lg.Debug("c20 provider watch: poll", zap.Int("goroutine", i))
+					case 1:
+						lg.Info("c20 provider watch: unchanged", zap.Int("n", n))
+					case 2:
+						lg.Warn("c20 provider watch: slow source")
+					default:
+						lg.Error("c20 provider watch: transient error")
+					}
+					runtime.Gosched()
+				}
+			}(i)
+		}
+	})
+}
+
+func (w *world) stopLoggers() { w.logStopOnce.Do(func() { close(w.logStop) }) }
 
 func (w *world) newCollector() (*otelcol.Collector, error) {
 	fs := w.factories()
@@ -620,12 +681,18 @@ func (w *world) newCollector() (*otelcol.Collector, error) {
 		BuildInfo:               component.NewDefaultBuildInfo(),
 		DisableGracefulShutdown: false,
 		SkipSettingGRPCLogger:   true,
-		LoggingOptions:          nopLogging(),
+		LoggingOptions:          loggingOptions(),
 		ConfigProviderSettings: otelcol.ConfigProviderSettings{ResolverSettings: confmap.ResolverSettings{
 			URIs: []string{mainScheme + ":gen", auxScheme + ":aux"},
 			ProviderFactories: []confmap.ProviderFactory{
-				confmap.NewProviderFactory(func(confmap.ProviderSettings) confmap.Provider { return &provider{w: w, scheme: mainScheme} }),
-				confmap.NewProviderFactory(func(confmap.ProviderSettings) confmap.Provider { return &provider{w: w, scheme: auxScheme} }),
+				confmap.NewProviderFactory(func(ps confmap.ProviderSettings) confmap.Provider {
+					w.provLoggers[0] = ps.Logger
+					return &provider{w: w, scheme: mainScheme}
+				}),
+				confmap.NewProviderFactory(func(ps confmap.ProviderSettings) confmap.Provider {
+					w.provLoggers[1] = ps.Logger
+					return &provider{w: w, scheme: auxScheme}
+				}),
 			},
 		}},
 	})
